@@ -24,12 +24,13 @@ Section Statements.
   Definition batched := apply_batched store W R apply_w handler other_exec parse_err err_invalid reply_nil conflicts.
   Definition alone := seq_run store W R apply_w handler other_exec parse_err err_invalid.
 
-  (* H1 (isolation; C12): writes of a batchable command on another primary key never change what a
-     batchable command reads.  H2: no batchable command that passed the argument pre-check (isValidBatchableWrite) fails with an abort-class error. *)
+  (* batch_cand q: a batchable name and not a multi-key DEL (the only requests that can ever be in a batch).
+     H1 (isolation; C12): writes of a batch candidate on another primary key never change what a
+     batch candidate reads.  H2: no batchable command that passed the argument pre-check (isValidBatchableWrite) fails with an abort-class error. *)
   Definition isolation : Prop := forall q q' s' ws r s,
-    name_batchable q = true -> name_batchable q' = true -> rpk q <> rpk q' ->
+    batch_cand q = true -> batch_cand q' = true -> rpk q <> rpk q' ->
     handler q' s' = Ok ws r -> handler q (commit_ws store W apply_w s ws) = handler q s.
-  Definition no_abort_in_batch : Prop := forall q s e, name_batchable q = true -> rvalid q = true -> handler q s <> Fail e true.
+  Definition no_abort_in_batch : Prop := forall q s e, batch_cand q = true -> rvalid q = true -> handler q s <> Fail e true.
 
   (* the full statement of C07(a): for every log and every partition, same store and same reply for
      every request as one-at-a-time application — with NO assumption on the handlers' errors *)
@@ -123,8 +124,8 @@ Theorem C07_isolation_from_rw_sets :
          (rset wset : req -> K -> Prop),
     (forall s w k, wkey w <> k -> get (apply_w s w) k = get s k) ->
     (forall q s s', (forall k, rset q k -> get s k = get s' k) -> handler q s = handler q s') ->
-    (forall q s ws r, handler q s = Ok ws r -> forall w, In w ws -> wset q (wkey w)) ->
-    (forall q q' k, name_batchable q = true -> name_batchable q' = true -> rpk q <> rpk q' -> wset q' k -> rset q k -> False) ->
+    (forall q s ws r, batch_cand q = true -> handler q s = Ok ws r -> forall w, In w ws -> wset q (wkey w)) ->
+    (forall q q' k, batch_cand q = true -> batch_cand q' = true -> rpk q <> rpk q' -> wset q' k -> rset q k -> False) ->
     isolation store W R apply_w handler.
 Proof. exact indep_from_rw_sets. Qed.
 Print Assumptions C07_isolation_from_rw_sets.
@@ -139,12 +140,12 @@ Theorem C07_isolation_concrete :
   forall (store W R V : Type) apply_w (handler : req -> store -> outcome W R) (get : store -> ekey -> V) (wkey : W -> ekey),
     (forall s w k, wkey w <> k -> get (apply_w s w) k = get s k) ->
     (forall q s s', (forall k, rset q k -> get s k = get s' k) -> handler q s = handler q s') ->
-    (forall q s ws r, handler q s = Ok ws r -> forall w, In w ws -> wset q (wkey w)) ->
+    (forall q s ws r, batch_cand q = true -> handler q s = Ok ws r -> forall w, In w ws -> wset q (wkey w)) ->
     isolation store W R apply_w handler.
 Proof. exact isolation_concrete. Qed.
 Print Assumptions C07_isolation_concrete.
 
-Theorem C07_rw_sets_disjoint : forall q q' k, name_batchable q = true -> name_batchable q' = true ->
+Theorem C07_rw_sets_disjoint : forall q q' k, batch_cand q = true -> batch_cand q' = true ->
   rpk q <> rpk q' -> wset q' k -> rset q k -> False.
 Proof. exact rw_isolation. Qed.
 Print Assumptions C07_rw_sets_disjoint.
